@@ -228,9 +228,13 @@ def describe_history(c):
                                  " +data" if e[5] and e[0] == 3 else "") for e in ents]
     return "flags %#x umask %o; pre-existing [%s]; entries [%s]" % (flags, um, "; ".join(ps), "; ".join(es))
 
+def real_comps(b):
+    return [c for c in b.split(b"/") if c not in (b"", b".")]
+
 def classify_canary(expected, got, case):
-    """stable key for a canary difference"""
-    ents = case[-1]
+    """stable key for a canary difference: what changed, and - for the two known mechanisms - which
+    constellation of entries produced it (so that a different defect with a similar effect gets its own key)"""
+    pre, ents = case[-2], case[-1]
     e = {x[0]: x for x in expected}
     g = {x[0]: x for x in got}
     created = sorted(set(g) - set(e))
@@ -246,15 +250,33 @@ def classify_canary(expected, got, case):
             diffs.append((p, fields, e[p], g[p]))
     what = "; ".join("%s: %s changed (%r -> %r)" % (p.decode() or "<root>", "/".join(f), ex[1:], go[1:]) for p, f, ex, go in diffs[:3])
     allf = set(f for _, fs, _, _ in diffs for f in fs)
+    symlinks = [real_comps(p[1]) for p in pre if p[0] == 2] + [real_comps(x[1]) for x in ents if x[0] == T_SYMLINK]
     if allf <= {"mode", "mtime"}:
-        hl_data = any(x[0] == T_HARDLINK and x[5] for x in ents)
         only_dirs = all(ex[1] == 1 for _, _, ex, _ in diffs)
-        if "mtime" in allf and only_dirs:
-            return "C04:fixup:intermediate-symlink", "deferred directory fix-up applied outside the target: " + what
-        if hl_data and "mtime" not in allf:
+        # hard-link entry with data whose target names a symlink of the history
+        hl_sym = any(x[0] == T_HARDLINK and x[5] and real_comps(x[2]) in symlinks for x in ents)
+        # directory entry with a symlink planted on a proper prefix of its name (or on the name itself when the
+        # raw name goes on with "/." - the kernel then follows it as an intermediate component)
+        inter = last = False
+        for x in ents:
+            if x[0] != T_DIR:
+                continue
+            rc = real_comps(x[1])
+            raw_tail = x[1].rstrip(b"/").endswith(b"/.") or x[1].rstrip(b"/") == b"."
+            for sl in symlinks:
+                if sl and len(sl) < len(rc) and rc[:len(sl)] == sl:
+                    inter = True
+                elif sl and sl == rc:
+                    if raw_tail:
+                        inter = True
+                    else:
+                        last = True
+        if hl_sym and "mtime" not in allf:
             return "C04:hardlink-data:chmod-follows-symlink", "chmod() through a hard-linked symlink changed the canary: " + what
-        if only_dirs:
+        if only_dirs and inter:
             return "C04:fixup:intermediate-symlink", "deferred directory fix-up applied outside the target: " + what
+        if only_dirs and last:
+            return "C04:fixup:last-component-symlink", "deferred directory fix-up followed a symlink in the last component: " + what
         return "C04:canary:remoded", what
     if "nlink" in allf and allf <= {"nlink"}:
         return "C04:canary:hard-linked", what
